@@ -1,5 +1,7 @@
+import Mathlib.Analysis.SpecialFunctions.Trigonometric.Bounds
 import E3nnVerif.Theory.Radial
 import E3nnVerif.Theory.RadialGauss
+import E3nnVerif.Theory.RadialSmooth
 /-
 C16 — radial bases and scalar helpers.  All theorems are about the ℝ-instance of the scalar-generic model
 E3nnVerif/Model/Radial.lean (the same definitions run at Float in drivers/C16.lean next to the real code).
@@ -454,6 +456,105 @@ theorem fourier_sum_sq_lt_two (cutoff : Bool) (start stop : ℝ) (number : ℕ) 
           rw [Finset.sum_const, Finset.card_range, nsmul_eq_mul]; ring
       _ < 2 := by rw [div_lt_iff₀ hpos]; linarith
 
+/-! ## fourier without cutoff: lower bound -/
+
+/-- for odd `m = 2N − 1 ≥ 3` and `θ ∈ (0, π)`: `sin(mθ) > −(3/5)(m+2) sin θ` -/
+theorem sin_odd_mul_lower (N : ℕ) (hN : 2 ≤ N) (θ : ℝ) (h0 : 0 < θ) (h1 : θ < Real.pi) :
+    -(3 / 5) * (2 * (N : ℝ) + 1) * Real.sin θ < Real.sin ((2 * (N : ℝ) - 1) * θ) := by
+  have hpi := Real.pi_pos
+  have hNr : (2 : ℝ) ≤ N := by exact_mod_cast hN
+  set m : ℝ := 2 * (N : ℝ) - 1 with hm
+  have hm3 : 3 ≤ m := by rw [hm]; linarith
+  have hs : 0 < Real.sin θ := Real.sin_pos_of_pos_of_lt_pi h0 h1
+  have hneg : -(3 / 5) * (2 * (N : ℝ) + 1) * Real.sin θ < 0 := by
+    have : 0 < (3 / 5 : ℝ) * (2 * (N : ℝ) + 1) * Real.sin θ := by positivity
+    linarith
+  by_cases hA : θ ≤ Real.pi / m
+  · -- mθ ∈ (0, π]
+    have h2 : m * θ ≤ Real.pi := by
+      have : θ * m ≤ Real.pi := by rwa [le_div_iff₀ (by linarith)] at hA
+      linarith
+    have : 0 ≤ Real.sin (m * θ) := Real.sin_nonneg_of_nonneg_of_le_pi (by positivity) h2
+    linarith
+  by_cases hB : Real.pi - Real.pi / m ≤ θ
+  · -- mθ − (N−1)·2π ∈ [0, π)
+    have hper : Real.sin (m * θ) = Real.sin (m * θ - ((N - 1 : ℕ) : ℝ) * (2 * Real.pi)) :=
+      (Real.sin_sub_nat_mul_two_pi _ _).symm
+    have hcast : ((N - 1 : ℕ) : ℝ) = (N : ℝ) - 1 := by rw [Nat.cast_sub (by omega)]; simp
+    have hlow : 0 ≤ m * θ - ((N - 1 : ℕ) : ℝ) * (2 * Real.pi) := by
+      rw [hcast]
+      have : m * (Real.pi - Real.pi / m) ≤ m * θ := mul_le_mul_of_nonneg_left hB (by linarith)
+      have e : m * (Real.pi - Real.pi / m) = m * Real.pi - Real.pi := by field_simp
+      rw [e] at this
+      have : (m - 1) * Real.pi ≤ m * θ := by linarith
+      have e2 : ((N : ℝ) - 1) * (2 * Real.pi) = (m - 1) * Real.pi := by rw [hm]; ring
+      linarith
+    have hhigh : m * θ - ((N - 1 : ℕ) : ℝ) * (2 * Real.pi) ≤ Real.pi := by
+      rw [hcast]
+      have : m * θ < m * Real.pi := mul_lt_mul_of_pos_left h1 (by linarith)
+      have e2 : ((N : ℝ) - 1) * (2 * Real.pi) = (m - 1) * Real.pi := by rw [hm]; ring
+      rw [e2]; linarith
+    have : 0 ≤ Real.sin (m * θ) := by rw [hper]; exact Real.sin_nonneg_of_nonneg_of_le_pi hlow hhigh
+    linarith
+  · -- θ ∈ (π/m, π − π/m): sin θ ≥ sin(π/m) ≥ 2/m
+    rw [not_le] at hA hB
+    have hpm : 0 < Real.pi / m := by positivity
+    have hpm2 : Real.pi / m ≤ Real.pi / 2 := by
+      apply div_le_div_of_nonneg_left hpi.le (by norm_num) (by linarith)
+    have hjordan : 2 / m ≤ Real.sin (Real.pi / m) := by
+      have := Real.mul_le_sin hpm.le hpm2
+      have e : 2 / Real.pi * (Real.pi / m) = 2 / m := by field_simp
+      linarith
+    have hsin : Real.sin (Real.pi / m) ≤ Real.sin θ := by
+      by_cases hh : θ ≤ Real.pi / 2
+      · exact Real.sin_le_sin_of_le_of_le_pi_div_two (by linarith) hh hA.le
+      · rw [not_le] at hh
+        rw [← Real.sin_pi_sub θ]
+        exact Real.sin_le_sin_of_le_of_le_pi_div_two (by linarith) (by linarith) (by linarith)
+    have hge : -1 ≤ Real.sin (m * θ) := Real.neg_one_le_sin _
+    have hs2 : 2 / m ≤ Real.sin θ := le_trans hjordan hsin
+    have hkey : 1 < (3 / 5) * (2 * (N : ℝ) + 1) * Real.sin θ := by
+      have h2N : 2 * (N : ℝ) + 1 = m + 2 := by rw [hm]; ring
+      rw [h2N]
+      have hmpos : 0 < m := by linarith
+      have : (3 / 5 : ℝ) * (m + 2) * (2 / m) ≤ (3 / 5) * (m + 2) * Real.sin θ :=
+        mul_le_mul_of_nonneg_left hs2 (by positivity)
+      have e : (3 / 5 : ℝ) * (m + 2) * (2 / m) = 6 / 5 + 12 / (5 * m) := by field_simp; ring
+      have : (6 / 5 : ℝ) < 6 / 5 + 12 / (5 * m) := by
+        have : 0 < 12 / (5 * m) := by positivity
+        linarith
+      linarith
+    linarith
+
+/-- LOWER half for the fourier family without cutoff (round 4): strictly inside the interval the sum of squares exceeds 0.4 —
+from the exact closed form `Σ y² = 1 + sin((2N−1)θ)/((2N+1) sin θ)` and `sin((2N−1)θ) > −(3/5)(2N+1) sin θ` -/
+theorem fourier_sum_sq_lower_no_cutoff (start stop : ℝ) (number : ℕ) (hn : 2 ≤ number) (h : start < stop) (x : ℝ)
+    (hx0 : start < x) (hx1 : x < stop) :
+    2 / 5 < sumSq (softOneHotRow .fourier false start stop number x) := by
+  have hc : 0 < stop - start := by linarith
+  have hu0 : 0 < (x - start) / (stop - start) := div_pos (by linarith) hc
+  have hu1 : (x - start) / (stop - start) < 1 := by rw [div_lt_one hc]; linarith
+  have hθ0 : 0 < Real.pi * ((x - start) / (stop - start)) := by positivity
+  have hθ1 : Real.pi * ((x - start) / (stop - start)) < Real.pi := by
+    have := mul_lt_mul_of_pos_left hu1 Real.pi_pos
+    linarith
+  have hclosed := fourier_sum_sq_no_cutoff start stop number x
+  simp only at hclosed
+  set θ := Real.pi * ((x - start) / (stop - start)) with hθ
+  set S := sumSq (softOneHotRow .fourier false start stop number x) with hS
+  have hs : 0 < Real.sin θ := Real.sin_pos_of_pos_of_lt_pi hθ0 hθ1
+  have hlow := sin_odd_mul_lower number hn θ hθ0 hθ1
+  have hN : (2 : ℝ) ≤ number := by exact_mod_cast hn
+  -- 4 s (1/4 + N/2) S = (2N+1) s + sin((2N−1)θ) > (2/5)(2N+1) s
+  have h1 : (2 / 5) * (2 * (number : ℝ) + 1) * Real.sin θ < 4 * Real.sin θ * ((1 / 4 + (number : ℝ) / 2) * S) := by
+    rw [hclosed]; nlinarith
+  have h2 : 4 * Real.sin θ * ((1 / 4 + (number : ℝ) / 2) * S) = (2 * (number : ℝ) + 1) * Real.sin θ * S := by ring
+  rw [h2] at h1
+  have hpos : 0 < (2 * (number : ℝ) + 1) * Real.sin θ := by positivity
+  have : (2 / 5) * ((2 * (number : ℝ) + 1) * Real.sin θ) < ((2 * (number : ℝ) + 1) * Real.sin θ) * S := by linarith
+  exact lt_of_mul_lt_mul_left (by linarith) hpos.le
+
+
 /-! ## gaussian: partial bound on the sum of squares -/
 
 /-- PARTIAL (lower half of "within fixed bounds of 1"): between the first and the last centre the gaussian
@@ -525,6 +626,50 @@ theorem gaussian_sum_sq_within_bounds (cutoff : Bool) (start stop : ℝ) (number
   ⟨gaussian_sum_sq_lower_partial cutoff start stop number hn h x hx0 hx1,
    gaussian_sum_sq_lt_two cutoff start stop number hn h x⟩
 
+/-! ## smooth_finite: both bounds (round 4) -/
+
+/-- the reduced coordinate `t = (x − first centre)/step` and the terms of the row -/
+theorem smoothFinite_terms (cutoff : Bool) (start stop : ℝ) (number : ℕ) (hn : 2 ≤ number) (h : start < stop) (x : ℝ) :
+    sumSq (softOneHotRow .smoothFinite cutoff start stop number x)
+      = ∑ i ∈ Finset.range number,
+          smoothFiniteOf ((x - (start + (if cutoff then 1 else 0) * realStep start stop number cutoff))
+            / realStep start stop number cutoff - (i : ℝ)) ^ 2 := by
+  have hs := realStep_pos start stop number cutoff hn h
+  unfold softOneHotRow
+  rw [sumSq_map_range]
+  refine Finset.sum_congr rfl fun i hi => ?_
+  simp only [basisAt]
+  rw [diffAt_real _ _ _ _ hn x i (Finset.mem_range.mp hi)]
+  congr 2
+  field_simp
+  ring
+
+/-- UPPER bound: for EVERY real `x`, every interval and every number of functions the `smooth_finite` sum of squares is below 2 -/
+theorem smooth_finite_sum_sq_lt_two (cutoff : Bool) (start stop : ℝ) (number : ℕ) (hn : 2 ≤ number)
+    (h : start < stop) (x : ℝ) :
+    sumSq (softOneHotRow .smoothFinite cutoff start stop number x) < 2 := by
+  rw [smoothFinite_terms cutoff start stop number hn h x]
+  exact sum_smoothFiniteOf_sq_lt_two number _
+
+/-- LOWER bound: between the first and the last centre the `smooth_finite` sum of squares exceeds 0.4 -/
+theorem smooth_finite_sum_sq_lower (cutoff : Bool) (start stop : ℝ) (number : ℕ) (hn : 2 ≤ number)
+    (h : start < stop) (x : ℝ)
+    (hx0 : center start stop number cutoff 0 ≤ x)
+    (hx1 : x ≤ center start stop number cutoff (number - 1)) :
+    2 / 5 < sumSq (softOneHotRow .smoothFinite cutoff start stop number x) := by
+  have hs := realStep_pos start stop number cutoff hn h
+  rw [center_real _ _ _ _ hn 0 (by omega)] at hx0
+  rw [center_real _ _ _ _ hn _ (by omega), Nat.cast_sub (by omega)] at hx1
+  rw [smoothFinite_terms cutoff start stop number hn h x]
+  apply sum_smoothFiniteOf_sq_gt
+  · apply div_nonneg _ hs.le; push_cast at hx0; linarith
+  · rw [div_le_iff₀ hs]; push_cast at hx1; linarith
+
+example : (2 : ℝ) / 5 < sumSq (softOneHotRow .smoothFinite false (0 : ℝ) 1 3 (1 / 3)) := by
+  apply smooth_finite_sum_sq_lower false 0 1 3 (by norm_num) (by norm_num)
+  · rw [(centres_ends_no_cutoff 0 1 3 (by norm_num)).1]; norm_num
+  · rw [(centres_ends_no_cutoff 0 1 3 (by norm_num)).2]; norm_num
+
 /-! ## normalize2mom -/
 
 /-- when the shortcut is not taken, `f(x)·cst` has second moment exactly 1 over the very sample that
@@ -574,18 +719,15 @@ example : isId (cstOf ([1, -1] : List ℝ)) = true := by
   rw [isId_real, cstOf_real, moment_two_real]; norm_num
 
 /-
-NOT PROVED (left to the dense boundary-targeted grid of harness/c16.py on the real code):
-
-theorem sum_sq_within_fixed_bounds (b ∈ {gaussian, smooth_finite, fourier}) (cutoff) (start < stop) (2 ≤ number)
-    (x between the first and the last centre) :
-    0.4 < sumSq (softOneHotRow b cutoff start stop number x) ∧ sumSq (...) < 2.0
-  (the bounds of e3nn's own test; observed on the real code: gaussian [0.905, 1.014],
-   smooth_finite [0.686, 1.303], fourier [0.787, 1.981] without and [0.800, 1.200] with cutoff).
-Proved parts: `fourier_sum_sq_lt_two` (upper bound, every x), the exact closed forms
-`fourier_sum_sq_no_cutoff / _cutoff`, `cosine_sum_sq_eq_one` (exactly 1), and for the gaussian family BOTH bounds
-(`gaussian_sum_sq_within_bounds`: lower half between the end centres, upper half `gaussian_sum_sq_lt_two` for every x).
-Missing: the lower bound 0.4 for fourier/smooth_finite and the upper bound for smooth_finite; these need certified
-enclosures of `exp(-1/x)` / a Dirichlet-kernel estimate.
+"The sum of squares stays within fixed bounds of 1 in the interior" — status after round 4 (bounds 0.4 and 2.0 of e3nn's own test;
+observed on the real code: gaussian [0.905, 1.014], smooth_finite [0.686, 1.303], fourier [0.787, 1.981] without and [0.800, 1.200]
+with cutoff):
+  cosine          `cosine_sum_sq_eq_one`             exactly 1
+  gaussian        `gaussian_sum_sq_within_bounds`     (0.4, 2), upper half for every x
+  smooth_finite   `smooth_finite_sum_sq_lower`, `smooth_finite_sum_sq_lt_two`   (0.4, 2), upper half for every x
+  fourier         `fourier_sum_sq_lt_two` (every x), `fourier_sum_sq_lower_no_cutoff` (strictly inside), exact closed forms
+NOT PROVED: a lower bound for fourier WITH cutoff — it can only hold away from the ends, where the functions vanish by design
+(the property text excludes exactly that region); the dense boundary-targeted grid of harness/c16.py covers it on the real code.
 -/
 
 end E3nnVerif.Props.C16
